@@ -12,7 +12,7 @@ use verif_rt::explore::{Finding, Scenario};
 use verif_rt::thread::spawn_client;
 use verif_rt::{choose, log, quiesce, Ev, Gate};
 
-pub const CALLS: [&str; 19] = [
+pub const CALLS: [&str; 20] = [
     "with_name(alpha)",
     "with_name(bravo)",
     "with_name()",
@@ -32,6 +32,7 @@ pub const CALLS: [&str; 19] = [
     "with_middlewares[]",
     "add_middleware",
     "with_capacity(3)",
+    "add_middleware(shared)",
 ];
 
 const GATED: u32 = 7;
@@ -74,6 +75,8 @@ fn body(len: usize, with_reducer_ctor: bool) {
     } else {
         StoreBuilder::new(St::default())
     };
+    // one middleware object that can be configured several times (it then runs several times)
+    let shared = mw(40);
     for i in 0..len {
         let c = choose(CALLS.len());
         log(Ev::Note { what: "call", a: i as i64, b: c as i64 });
@@ -101,6 +104,7 @@ fn body(len: usize, with_reducer_ctor: bool) {
             16 => { m.mws = vec![]; b.with_middlewares(vec![]) }
             17 => { m.mws.push(m1); b.add_middleware(mw(m1)) }
             18 => { m.cap = 3; b.with_capacity(3) }
+            19 => { m.mws.push(40); b.add_middleware(shared.clone()) }
             _ => unreachable!(),
         };
     }
